@@ -75,6 +75,13 @@ def random_events(ctx, rnd, n):
         if rnd.random() < 0.06:
             g = rnd.choice(["+15", "-13", "+99", "15", "+24", "-24.00", "+15.30", "-13.59"])
             evs.append(tc.ev_conv("o%d" % i, t, date + hms + rnd.choice(["", "." + ms]) + "[" + g + rnd.choice(["", ":XYZ", ":EST"]) + "]"))
+        # digits of another script (full-width, Arabic-Indic, Devanagari) are not digits of the notation
+        if rnd.random() < 0.05 and text:
+            pos = [j for j, ch in enumerate(text) if ch.isdigit()]
+            if pos:
+                j = rnd.choice(pos)
+                alt = rnd.choice(["\uff10", "\u0660", "\u0966"])
+                evs.append(tc.ev_conv("u%d" % i, t, text[:j] + chr(ord(alt) + int(text[j])) + text[j + 1:]))
         # a corruption of the text
         k = rnd.random()
         if text and k < 0.6:
@@ -93,6 +100,12 @@ def random_events(ctx, rnd, n):
             if isT:
                 a = dict(a, t="timev", kind="time", day=0)
             evs.append(tc.ev_unconv("w%d" % i, t, a))
+            if rnd.random() < 0.3:
+                # the same value after it went through convert() as a Python value (as when it is set on a model attribute)
+                el_ = tc.make_element(t)
+                ok_, v_, _, _ = tc.call(el_.convert, tc.concretise(a))
+                if ok_ and v_ is not None:
+                    evs.append(tc.ev_unconv("v%d" % i, t, a, el=el_, pyval=v_))
             e = tc.ev_rt("b%d" % i, t, a)
             if e:
                 evs.append(e)
@@ -117,6 +130,25 @@ def random_events(ctx, rnd, n):
                 evs.append(tc.ev_unconv("d%d" % k, DT, tc.dtv(v), pyval=v))
                 ctx.nontrivial.add(("write-dst", z.names[1], edge is z.end, v.fold, d_us < 0))
                 k += 1
+    # the reading of a text does not depend on the zone of the machine: part of the texts are read again with the process
+    # in another local zone (POSIX TZ strings: no zone database needed)
+    import os as _os
+    import time as _time
+    if hasattr(_time, "tzset"):
+        reads = [e for e in evs if e["op"] == "conv"][: max(20, n // 10)]
+        old_tz = _os.environ.get("TZ")
+        try:
+            for zi, tzs in enumerate(("VRF-5:30", "VRG+8", "VRH-13")):
+                _os.environ["TZ"] = tzs
+                _time.tzset()
+                for e in reads[zi::3]:
+                    evs.append(tc.ev_conv("z%s-%d" % (e["id"], zi), e["ty"], __import__("core").uncps(e["txt"])))
+        finally:
+            if old_tz is None:
+                _os.environ.pop("TZ", None)
+            else:
+                _os.environ["TZ"] = old_tz
+            _time.tzset()
     # naive values are refused
     el_dt = tc.make_element(DT)
     el_tm = tc.make_element(TM)
